@@ -122,7 +122,8 @@ class TableCacheWorld:
     def _incarnate(self, idxs, write_fault, hashseed, want=None, pyflags=(), force_optimize=False, crash_at=None, subclass=None):
         shutil.rmtree(os.path.join(self.pkg, "__pycache__"), ignore_errors=True)
         job = {"items": [self.W[i] for i in idxs], "write_fault": write_fault, "want_outcomes": want or [],
-               "force_optimize": force_optimize, "crash_at": crash_at, "subclass": subclass}
+               "force_optimize": force_optimize, "crash_at": crash_at, "subclass": subclass,
+               "reference_table": None if (force_optimize or crash_at) else self.valid_file}
         r = subprocess.run([core.PY] + list(pyflags) + [os.path.join(core.HERE, "incarnation.py"), self.tree], input=json.dumps(job),
                            stdout=subprocess.PIPE, stderr=subprocess.DEVNULL, text=True, timeout=900,
                            env=core.worker_env(hashseed), cwd=self.workroot)
@@ -168,7 +169,7 @@ class TableCacheWorld:
 
     def execute(self, trace, keep_events=False):
         if trace.get("subclass_cell"):
-            r = self.subclass_cell(trace["subclass_cell"])
+            r = self.subclass_cell(trace["subclass_cell"], trace.get("subclass_order", "base_first"))
             if r["violating"]:
                 return r["violating"][0]
             return {"status": "ok", "violations": [], "trace": trace, "stats": r["stats"]}
@@ -222,6 +223,13 @@ class TableCacheWorld:
                 violations.append({"oracle": "constructor_failed", "incarnation": i, "state": eff,
                                    "observed": r.get("import_exc") or r.get("ctor_exc")})
                 break
+            if r.get("tables_in_use") is not None:
+                stats["tables_in_use_checked"] += 1
+                if r["tables_in_use"]:
+                    violations.append({"oracle": "tables_in_use_differ", "incarnation": i, "state": eff, "write_fault": inc["write_fault"],
+                                       "observed": r["tables_in_use"],
+                                       "expected": "after parsing its batch in one process, a new parser still runs with the tables of the declared grammar"})
+                    break
             bad = [n for n, (idx, d) in enumerate(zip(inc["items"], r["digests"])) if self.baseline[idx] != d]
             stats["outcomes_compared"] += len(r["digests"])
             if bad or len(r["digests"]) != len(inc["items"]):
@@ -266,12 +274,12 @@ class TableCacheWorld:
         m = re.match(r"(\w+) minus alternative (\d+)", self.foreign_info["perturbed"])
         return {"rule": m.group(1), "drop": int(m.group(2))} if m else None
 
-    def subclass_cell(self, state):
+    def subclass_cell(self, state, order="base_first"):
         """A user subclass with another grammar, constructed AFTER a plain DDLParser in the same process, must parse exactly
         as it does when it is the only parser class of a process.  (Constructing it rewrites the shared cache file with its
         own tables - the library's behaviour - which is how the 'stale signature, foreign tables' state arises in real life.)"""
         spec = self._subclass_spec()
-        out = {"status": "ok", "cells": 1, "keys": ["subclass:%s" % state], "violating": [], "stats": collections.Counter()}
+        out = {"status": "ok", "cells": 1, "keys": ["subclass:%s:%s" % (state, order)], "violating": [], "stats": collections.Counter()}
         if spec is None:
             out["stats"]["subclass_unavailable"] += 1
             out["stats"] = dict(out["stats"])
@@ -282,7 +290,7 @@ class TableCacheWorld:
             r0 = self._incarnate(idxs, False, 0, subclass=dict(spec, order="sub_first"))
             self._sub_alone = r0.get("digests")
         self.set_state(state)
-        r = self._incarnate(idxs, False, 0, subclass=dict(spec, order="base_first"))
+        r = self._incarnate(idxs, False, 0, subclass=dict(spec, order=order))
         self.set_state("valid")
         out["stats"]["incarnations"] += 2
         out["stats"]["subclass_probes"] += 1
@@ -290,11 +298,12 @@ class TableCacheWorld:
         if r.get("import_exc") or r.get("ctor_exc") or r.get("digests") != self._sub_alone:
             bad = [n for n, (a, b) in enumerate(zip(r.get("digests") or [], self._sub_alone or [])) if a != b]
             res = {"status": "violation", "stats": dict(out["stats"]),
-                   "violations": [{"oracle": "subclass_tables_differ", "state": state, "subclass": spec,
+                   "violations": [{"oracle": "subclass_tables_differ", "state": state, "order": order, "subclass": spec,
                                    "observed": r.get("ctor_exc") or r.get("import_exc") or "%d of %d items differ from the subclass-alone outcome" % (len(bad), len(idxs)),
                                    "item": idxs[bad[0]] if bad else None,
                                    "ddl": core.short(self.W[idxs[bad[0]]]["ddl"], 400) if bad else None}],
-                   "trace": {"world": "tablecache", "prop": "C20", "seed": 0, "subclass_cell": state, "swarm": {"sweep": ["subclass", state]}}}
+                   "trace": {"world": "tablecache", "prop": "C20", "seed": 0, "subclass_cell": state, "subclass_order": order,
+                             "swarm": {"sweep": ["subclass", state, order]}}}
             out["violating"].append(res)
         out["stats"] = dict(out["stats"])
         return out
